@@ -24,7 +24,7 @@ from concurrent.futures import ProcessPoolExecutor
 from ..check import ALL, analyse
 
 
-SHAPE_KINDS = ("flip", "invert", "kwargs", "aug", "noise", "annot", "inlinetemp", "extracttemp", "comp2loop", "swapindep", "splitunpack", "imports", "mergeif", "splitif", "elsewrap", "unelse", "ternary2if", "demorgan", "unguard", "pos2kw")
+SHAPE_KINDS = ("flip", "invert", "kwargs", "aug", "noise", "annot", "inlinetemp", "extracttemp", "comp2loop", "swapindep", "splitunpack", "imports", "mergeif", "splitif", "elsewrap", "unelse", "ternary2if", "demorgan", "unguard", "pos2kw", "fstring2format")
 
 
 def _variants(prop, renamed_mutants=False, reshaped_mutants=False):
@@ -214,12 +214,30 @@ def selftest(props, root="/repo", jobs=16, renamed_mutants=False, reshaped_mutan
             tasks.append((p, kind, v, root))
     if not tasks:
         return []
-    # variants of one whole-package rewrite run next to each other: the per-process module cache (keyed by content) is then hit
-    tasks.sort(key=lambda t: (t[2].get("reshape") or "", bool(t[2].get("rename"))))
     if jobs <= 1 or len(tasks) == 1:
         return [run_one(t) for t in tasks]
-    with ProcessPoolExecutor(max_workers=min(jobs, len(tasks))) as ex:
-        return list(ex.map(run_one, tasks, chunksize=1))
+    # variants of one whole-package rewrite go to the same worker(s): normalising a rewritten package costs ~9 s per process, a variant on top
+    # of it well under a second (per-process module cache keyed by content)
+    groups = {}
+    for t in tasks:
+        groups.setdefault((t[2].get("reshape") or "", bool(t[2].get("rename"))), []).append(t)
+    chunks = []
+    for key, ts in groups.items():
+        n = jobs if key == ("", False) else max(1, min(len(ts) // 24, (2 * jobs) // max(1, len(groups) - 1) or 1))
+        n = max(1, min(n, len(ts)))
+        size = -(-len(ts) // n)
+        chunks += [ts[i:i + size] for i in range(0, len(ts), size)]
+    chunks.sort(key=len, reverse=True)
+    with ProcessPoolExecutor(max_workers=min(jobs, len(chunks))) as ex:
+        return [r for rs in ex.map(_run_chunk, chunks, chunksize=1) for r in rs]
+
+
+def _run_chunk(ts):
+    return [run_one(t) for t in ts]
+
+
+def _unused():
+    pass
 
 
 def main(argv=None):
